@@ -42,6 +42,27 @@ T = {
  'C19-b': ('C19', "init_and_shares(): chunk size = random_shares_batch_size()", "> 1000 ANDs and inputs + ANDs > 9000 (batch sizes differ), mixed or all-file tmp_dir", ['C19'], True, 'C19: mpc class with ~9000 AND gates and many inputs'),
  'C20-a': ('C20', "avx2 transpose: row-block offset dropped for rest columns", "rows >= 256 and cols % 128 != 0 on the AVX2 path", ['C20'], False, ''),
  'C20-b': ('C20', "AesRng::fill_bytes: counter advanced by a full chunk on a partial chunk", "request with (len/16) % 8 != 0 and a tail / follow-up", ['C20'], False, ''),
+ # ---- second round (less obvious sites)
+ 'C01-c': ('C01', "Context::and_share_batch_size(): one batch when tmp_dir is None", "> 1000 AND gates and mixed per-party tmp_dir choices", ['C01', 'C19'], False, ''),
+ 'C01-d': ('C01', "output(): contributors outside the output set return early", "a non-evaluator party that is not in p_out", ['C01', 'C05'], False, ''),
+ 'C02-c': ('C02', "broadcast_verification(): an echo of sender j only compared when it comes from a lower-index party", "n = 3, corrupted party 0 equivocates masked inputs and sends matching lambdas", ['C03', 'C04'], False, 'C02 itself does not combine two coordinated faults; the equivocation is reported by C03/C04'),
+ 'C02-d': ('C02', "output(): compact Vec<(bool,Mac)> 'output wire shares' without a length check (zip truncates)", "peer sends a shortened / empty but well-formed vector", ['C02'], True, 'format-agnostic VecShrink/VecGrow byte mutators; a wire grammar that no longer matches is not fatal any more (byte-level fallback)'),
+ 'C03-c': ('C03', "hash_vec(): tail beyond a multiple of 1024 elements not hashed", "n = 3, broadcast vector > 1024 elements, equivocation in the tail", ['C03', 'C04'], True, 'C03: masked-inputs equivocation on a 2200+-register circuit; C04: equivocation at the last element, 1500-element leaky-AND vectors'),
+ 'C03-d': ('C03', "output(): output-share MACs checked as one XOR fold per party (same idea as C03-b)", "two cancelling flips in one message", ['C03'], False, ''),
+ 'C04-c': ('C04', "check_dvalue(): d-value MACs compared as one XOR per bucket", "two d-values of one bucket flipped, MACs untouched", ['C04', 'C02'], True, 'C04: paired alterations inside one bucket / triple / vector (bits and MACs)'),
+ 'C04-d': ('C04', "flaand(): commitment and opening of H exchanged concurrently", "peer withholds its commitment (schedule)", ['C04'], False, ''),
+ 'C05-c': ('C05', "Context::is_output_party(): range check joined with '||'", "n >= 3 and a non-contiguous output set", ['C05'], False, ''),
+ 'C05-d': ('C05', "output(): all registers sent when output_regs.len() == max_reg_count", "duplicated outputs whose count equals the register count", ['C05'], False, ''),
+ 'C06-c': ('C06', "output(): 'output wire shares' built from the whole register file", "an input register that survives to the end; observer is an output party", ['C06', 'C05'], True, 'C06: own mask share of a non-output register must not appear in the share messages'),
+ 'C06-d': ('C06', "KOS Receiver::recv_setup(): blinding bits filled before resize (always zero)", "peer recomputes the public coins and solves the GF(2) system (l <= 128)", ['C06'], True, 'C06: linear leakage test (KOS check value + aBit test bits + opened bits under the hypothesis of constant blinding bits)'),
+ 'C07-c': ('C07', "fashare(): own-key MAC check moved after the opening", "one committed lie about a check bit; the victim aborts but has already opened", ['C07'], False, ''),
+ 'C07-d': ('C07', "fashare(): own-key MAC check aggregated over all rounds", "an even number of committed lies in one aShare call", ['C07', 'C04'], True, 'C04/C07: tap rows with two and four committed lies'),
+ 'C08-c': ('C08', "xor_inplace(): slices b to a.len() (panics on a short OT-extension row)", "'ALSZ_OT_setup' with one inner row shorter, in a column where the victim's base-OT bit is 1", ['C08'], False, ''),
+ 'C08-d': ('C08', "GarbledGate rows decoded through a serde_bytes-style path that allocates the claimed length", "length prefix of a row altered (two levels deep)", ['C08'], False, ''),
+ 'C09-c': ('C09', "broadcast_verification(): echo sent as a BTreeSet of digests", "n >= 4, few AND gates, coin coincidence", ['C09'], False, ''),
+ 'C09-d': ('C09', "output(): sparse 'lambda' message when the evaluator is not an output party", "output set excluding the evaluator", ['C09'], False, ''),
+ 'C10-c': ('C10', "same site as C04-a", "see C04-a", ['C04'], False, 'after the first-round strengthening'),
+ 'C10-d': ('C10', "check_dvalue(): length check only for the first bucket", "'dvalue' MAC list truncated for a later bucket", ['C04'], False, ''),
 }
 rows=[]
 for sid,(prop,site,needs,caught,missed,strength) in sorted(T.items()):
